@@ -8,6 +8,12 @@ def check(sc, obs):
     done = obs.get("tasks_done_at_exit")
     if done is not None and not all(done):
         return f"{done.count(False)} spawned task(s) still running after the scope block finished (spawned={sc['spawned']})"
+    if obs.get("cancel_delivered") and any(k in ("block", "respawn") for k in sc["spawned"]) \
+            and obs.get("end_time", 0) - sc["cancel_at"] > 3.0:
+        # every spawned task of the family ends at once when cancelled and no disposable step takes longer than 1s: a block that
+        # only ends much later (the blocking tasks sleep 1000s) awaited its spawned tasks instead of cancelling them
+        return (f"the task was cancelled at t={sc['cancel_at']} while it was in the block; the block only ended at t={obs.get('end_time')}: "
+                f"the remaining spawned tasks were awaited to completion instead of being cancelled")
     before, after = obs.get("before"), obs.get("after")
     if before is not None and after is not None and before[2] is not after[2]:
         # a later spawn of this task would go into the finished group of the block that was left (or be refused by it)
